@@ -379,6 +379,10 @@ func (g *gen) placeRef(p *Place) string {
 func (g *gen) allowedWrite(p *Place) string {
 	ref := g.placeRef(p)
 	conds := []string{not(g.alive0Term(ref))}
+	if g.sweepFrames != "" {
+		g.declareFun("private", []string{"Int"}, "Bool")
+		conds = append(conds, app("private", ref))
+	}
 	for _, a := range g.assignPlaces {
 		if a.Kind != p.Kind {
 			continue
